@@ -865,7 +865,8 @@ def run_history_case(ctx, cfg):
                                   min(prev[1], op[2]), report)
                 break
             # what this call was asked for, after the documented clamp by the previous range
-            req = (max(prev[0], op[1]), min(prev[1], op[2]))
+            req = (min(max(prev[0], op[1]), cfg["Tstart"]),
+                   max(min(prev[1], op[2]), cfg["Tstart"]))
             ureq = (op[1], op[2])
             ntrace += 1
             if ntrace == 1:
@@ -1191,7 +1192,7 @@ def oracle_file(rng, count):
 BIG = Fraction(10) ** 40          # stands for np.inf in min(self.maxPossibleTemperature[0], TMax)
 
 
-def book_goal(k, T, dT, TMinReq, TMaxReq, prior, after):
+def book_goal(k, T, dT, TMinReq, TMaxReq, prior, after, T0):
     """Coq goal: the GENERATED clamp/tail model, evaluated on the table the implementation
     produced, gives exactly the range and flags the implementation reports."""
     L = [Fraction(float(t)) for t in T]
@@ -1204,7 +1205,7 @@ def book_goal(k, T, dT, TMinReq, TMaxReq, prior, after):
     want_min, want_max = M + 2 * Fraction(dT), N - 2 * Fraction(dT)
     lst = "[" + "; ".join(q(x) for x in L) + "]"
     goal = """Definition L%(k)d : list R := %(lst)s.
-Goal let st' := after_trace L%(k)d %(dT)s %(tmin)s %(tmax)s %(st0)s in
+Goal let st' := after_trace L%(k)d %(dT)s %(tmin)s %(tmax)s %(t0)s %(st0)s in
   minT st' = %(wmin)s /\\ maxT st' = %(wmax)s /\\ minFlag st' = %(fa)s /\\ maxFlag st' = %(fb)s.
 Proof.
   intros st'.
@@ -1214,7 +1215,7 @@ Proof.
   assert (LM : lmax L%(k)d = %(N)s).
   { apply lmax_is; [unfold L%(k)d; do %(iN)d right; left; reflexivity
                    |unfold L%(k)d; repeat (apply Forall_cons; [lra|]); apply Forall_nil]. }
-  destruct (tail_values L%(k)d %(dT)s (clamp_TMin %(st0)s %(tmin)s) (clamp_TMax %(st0)s %(tmax)s)
+  destruct (tail_values L%(k)d %(dT)s (clamp_TMin %(st0)s %(tmin)s %(t0)s) (clamp_TMax %(st0)s %(tmax)s %(t0)s)
               (keep_min %(st0)s %(tmin)s) (keep_max %(st0)s %(tmax)s) %(st0)s) as [A [B [C D]]].
   unfold st', after_trace. rewrite A, B, C, D, Lm, LM.
   unfold clamp_TMin, clamp_TMax, keep_min, keep_max. cbn [minT maxT minFlag maxFlag andb].
@@ -1223,8 +1224,11 @@ Proof.
   assert (LT : forall x y, x <= y -> Rleb x y = true) by (intros; apply Rleb_true; assumption).
   assert (LF : forall x y, y < x -> Rleb x y = false) by (intros; apply Rleb_false; assumption).
   unfold Rmax, Rmin;
-    repeat match goal with |- context [Rle_dec ?x ?y] => destruct (Rle_dec x y) end;
-    try lra;
+    repeat match goal with
+      | |- context [Rle_dec ?x ?y] => destruct (Rle_dec x y)
+      | H : context [Rle_dec ?x ?y] |- _ => destruct (Rle_dec x y)
+      end;
+    try lra; try (exfalso; lra);
     repeat match goal with
       | |- context [Rltb ?x ?y] => first [rewrite (RT x y) by lra | rewrite (RF x y) by lra]
       | |- context [Rleb ?x ?y] => first [rewrite (LT x y) by lra | rewrite (LF x y) by lra]
@@ -1232,13 +1236,13 @@ Proof.
     cbn [orb andb]; repeat split; try reflexivity; lra.
 Qed.
 """
-    cmin = max(a0, Fraction(TMinReq))
-    cmax = min(b0, Fraction(TMaxReq))
+    cmin = min(max(a0, Fraction(TMinReq)), Fraction(T0))
+    cmax = max(min(b0, Fraction(TMaxReq)), Fraction(T0))
     fa = (cmin < M) or (bool(prior[0][1]) and Fraction(TMinReq) <= a0)
     fb = (N < cmax) or (bool(prior[1][1]) and b0 <= Fraction(TMaxReq))
     return goal % dict(
         k=k, lst=lst, dT=q(Fraction(dT)), tmin=q(Fraction(TMinReq)), tmax=q(Fraction(TMaxReq)),
-        st0=st0, wmin=q(want_min), wmax=q(want_max), fa=str(bool(after[0][1])).lower(),
+        st0=st0, t0=q(Fraction(T0)), wmin=q(want_min), wmax=q(want_max), fa=str(bool(after[0][1])).lower(),
         fb=str(bool(after[1][1])).lower(), M=q(M), N=q(N), iM=L.index(M), iN=L.index(N)), \
         (float(want_min), float(want_max), fa, fb)
 
@@ -1278,7 +1282,8 @@ def book_file(ctx, rng, count):
                 break
             after = ([float(fe.minPossibleTemperature[0]), bool(fe.minPossibleTemperature[1])],
                      [float(fe.maxPossibleTemperature[0]), bool(fe.maxPossibleTemperature[1])])
-            g, (wmin, wmax, fa, fb) = book_goal(k, T, cfg["dT"], TMinReq, TMaxReq, prior, after)
+            g, (wmin, wmax, fa, fb) = book_goal(k, T, cfg["dT"], TMinReq, TMaxReq, prior, after,
+                                                cfg["Tstart"])
             ctx.count("bookkeeping_model_vs_impl", dict(cfg=cfg, req=[TMinReq, TMaxReq]),
                       bucket="call%d/flags=%s%s" % (len(goals) and calls.index(
                           (TMinReq, TMaxReq)), int(after[0][1]), int(after[1][1])))
@@ -1331,6 +1336,12 @@ DIRECTED += [
 # histories that exposed defects which are now fixed (c55f8fe stale end-of-phase flag after a
 # narrower re-trace; 03a9a43 direct evaluations extended a traced table): must stay quiet
 DIRECTED_HISTORY = [
+    # 78524e4: the 2 dT margin of the first trace excluded the start temperature from the
+    # clamped window of an identical second call (ValueError from the spline)
+    {"model": {"model": "quartic1", "D": 0.2, "E": 0.05, "lam": 0.1, "T0": 80.0, "g": 100.0,
+               "unit": 1.0}, "phase": "sym", "Tstart": 83.0,
+     "ops": [["trace", 82.8, 90.0], ["trace", 82.8, 90.0]], "dT": 0.25, "rTol": 1e-06,
+     "paranoid": True},
     {
         "model": {
             "model": "quartic1",
